@@ -165,7 +165,9 @@ def bounds(tier):
     th = tier == "thorough"
     return {"atoms": ATOMS, "L_hood": "2 (thorough: 3 on the d<=1 neighbourhood)", "L_kitchen": "5/4" if th else "4 on two configurations, 3 on the others", "fills": FILL, "fill_pairs": len(FILL) ** 2 + len(FILL),
             "templates": TEMPLATES, "free_lines_K": 2, "d": 2 if th else 1, "hood_configs": len(hood(2 if th else 1)),
-            "kitchen_configs": kitchen()}
+            "kitchen_configs": kitchen(),
+            "delimiter_runs": {"strike_atoms": S.STRIKE_ATOMS, "emph_link_atoms": S.EMPH_ATOMS + ["[", "](u)"],
+                               "L": 7 if th else 6, "config": DELIM_CFG}}
 
 
 def shards(tier):
@@ -184,7 +186,17 @@ def shards(tier):
         for f in ATOMS:
             sh.append(("kitchen", ki, f, (5 if ki < 2 else 4) if th else (4 if ki < 2 else 3)))
         sh.append(("ktempl", ki))
+    # delimiter-run spaces (post-processing that reorders or splits tokens): strikethrough and emphasis runs around
+    # links, html off
+    for f in S.STRIKE_ATOMS:
+        sh.append(("delim", "strike", f, 7 if th else 6))
+    for f in S.EMPH_ATOMS + ["[", "](u)"]:
+        sh.append(("delim", "emph", f, 7 if th else 6))
     return sh
+
+
+DELIM_CFG = C.cfg("js-default", {"html": False})
+EMPH_LINK_ATOMS = S.EMPH_ATOMS + ["[", "](u)"]
 
 
 def fills():
@@ -208,6 +220,10 @@ def _iter(sh):
         c = kitchen()[ki]
         for s in S.strings_with_first(f, ATOMS, L):
             yield c, s
+    elif k == "delim":
+        _, which, f, L = sh
+        for s in S.strings_with_first(f, S.STRIKE_ATOMS if which == "strike" else EMPH_LINK_ATOMS, L):
+            yield DELIM_CFG, s
     elif k == "ktempl":
         c = kitchen()[sh[1]]
         for t in TEMPLATES:
